@@ -69,7 +69,8 @@ func NoiseGadgetCiphertext(gct *GadgetCiphertext, pt ring.Poly, sk *SecretKey, p
 	// sum([1]_w * [RNS*PW2*P*sOut + e]) = PWw*P*sOut + sum(e)
 	for i := range gct.Value { // RNS decomp
 		if i > 0 {
-			for j := range gct.Value[i] { // PW2 decomp
+			// PW2 decomp (only the digits that all the RNS components have are checked)
+			for j := 0; j < BaseTwoDecompositionVectorSize; j++ {
 				ringQP.Add(gct.Value[0][j][0], gct.Value[i][j][0], gct.Value[0][j][0])
 			}
 		}
